@@ -209,9 +209,41 @@ def run_impl(case):
     def intent_of(items, named):
         sn = _snames(K_case)
         return {('a%d' % sn[ps] if named else ps): j2d(j) for ps, j in items}
+    def build_context():
+        """The context of the case; with a 'prelude' it is first built on the OLD columns, queried
+        (so that anything the code may cache gets cached), and then brought to the case's columns in
+        place - through `ps.data = ...` or through the `pattern_structures` setter."""
+        pre = K_case.get('prelude')
+        if not pre:
+            return _mvctx(K_case)
+        from fcapy.lattice import ConceptLattice
+        K = _mvctx(dict(K_case, cols=pre['old_cols']))
+        p, n = len(K_case['cols']), K_case['n']
+        old_intent = {ps: j2d(j) for ps, j in pre['warm_intent']}
+        for warm in (lambda: K.extension_i(old_intent),
+                     lambda: K.extension_i({ps: d for ps, d in intent_of(K_case['intent'], False).items()}),
+                     lambda: K.get_minimal_generators(old_intent, use_indexes=True),
+                     lambda: K.intention_i(list(range(n))),
+                     lambda: ConceptLattice.from_context(K)):
+            guarded(warm, timeout_s=2)
+        new_cols = K_case['cols']
+        if pre['how'] == 'ps_data':
+            for ps in range(p):
+                if new_cols[ps] != pre['old_cols'][ps]:
+                    K.pattern_structures[ps].data = [tuple(float(x) for x in v) for v in new_cols[ps]]
+        else:
+            perm = K_case.get('attr_perm') or list(range(p))
+            data = [[tuple(float(x) for x in new_cols[perm[j]][g]) for j in range(p)] for g in range(n)]
+            K.pattern_structures = K.assemble_pattern_structures(data, K.pattern_types)
+        return K
+
     if kind == 'mv':
+        built = guarded(build_context, timeout_s=20)
+        if built[0] != 'ok':
+            return list(built)
+
         def go():
-            K = _mvctx(K_case)
+            K = built[1]
             named = case['named']
             intent = intent_of(case['intent'], named)
             bg = None if case['base_gen'] is None else intent_of(case['base_gen'], named)
@@ -228,7 +260,7 @@ def run_impl(case):
         return list(r)
 
     def go():
-        K = _mvctx(K_case)
+        K = build_context()
         res = K.generators_by_intent_difference(intent_of(case['new'], False), intent_of(case['old'], False))
         return _dd_out(res, False)
     return list(guarded(go, timeout_s=10))
@@ -294,6 +326,7 @@ def stats(case):
                 'ps': 'numpy' if case['numpy'] else 'plain', 'mv_base': case.get('base_kind', ''),
                 'mv_by': 'name' if case['named'] else 'index',
                 'mv_base_gen': case['base_gen'] is not None, 'mv_pti': case['pti'] is not None,
+                'mv_update': (case.get('prelude') or {}).get('how', 'none'),
                 'mv_columns': 'permuted' if (case.get('attr_perm') or []) != sorted(case.get('attr_perm') or [])
                               else 'declared order'}
     return {'kind': 'diff', 'ps': 'numpy' if case['numpy'] else 'plain'}
@@ -410,9 +443,39 @@ def _dj(d, collapse=False):
     return ['iv', d[0], d[1]]
 
 
-def mv_cases(rng, max_n, max_ps, n_timeouts):
+def _prelude(rng, cols, n):
+    """An older version of the table: one column differs, so that after the update an object lies OUTSIDE
+    the range the column had before (or the range shrinks); plus an intent of the old table to query."""
+    p = len(cols)
+    ps = rng.randrange(p)
+    col = cols[ps]
+    old = [list(v) for v in col]
+    mode = rng.choice(['max_out', 'min_out', 'random'])
+    if n >= 2 and mode != 'random':
+        g = rng.randrange(n)
+        others = [col[k] for k in range(n) if k != g]
+        # the NEW table (the case's own columns, adjusted here) puts g strictly outside the range of the others;
+        # before the update g sat inside that range
+        if mode == 'max_out':
+            m = max(v[1] for v in others) + 1
+        else:
+            m = min(v[0] for v in others) - 1
+        col[g] = [m, m]
+        old[g] = list(rng.choice(others))
+    else:
+        g = rng.randrange(n)
+        a = rng.randint(0, 4)
+        old[g] = [a, a]
+    old_cols = [([list(v) for v in c] if k != ps else old) for k, c in enumerate(cols)]
+    e, d = rng.choice(mv_concepts(old_cols, n))
+    return {'old_cols': old_cols, 'how': rng.choice(['ps_data', 'ps_data', 'setter']),
+            'warm_intent': [[k, _dj(d[k])] for k in range(p)]}
+
+
+def mv_cases(rng, max_n, max_ps, n_timeouts, with_prelude=False):
     cols, n = random_iv_table(rng, max_n, max_ps)
     numpy_ps = rng.random() < 0.35
+    prelude = _prelude(rng, cols, n) if with_prelude else None
     concepts = mv_concepts(cols, n)
     p = len(cols)
     out = []
@@ -428,6 +491,7 @@ def mv_cases(rng, max_n, max_ps, n_timeouts):
 
     def mk(intent_d, base, base_kind, bg=None, pti=None, pstart=1, collapse=False, named=None):
         return {'kind': 'mv', 'cols': cols, 'n': n, 'numpy': numpy_ps, 'snames': snames, 'attr_perm': attr_perm,
+                'prelude': prelude,
                 'intent': [[ps, _dj(intent_d[ps], collapse)] for ps in range(p)],
                 'base_gen': bg, 'base': base, 'pti': pti, 'pstart': pstart, 'base_kind': base_kind,
                 'named': (rng.random() < 0.35) if named is None else named}
@@ -443,7 +507,7 @@ def mv_cases(rng, max_n, max_ps, n_timeouts):
                 if pti:
                     out.append(mk(d, list(e2), 'super', pti=pti))
             out.append({'kind': 'diff', 'cols': cols, 'n': n, 'numpy': numpy_ps, 'snames': snames,
-                        'attr_perm': attr_perm,
+                        'attr_perm': attr_perm, 'prelude': prelude,
                         'new': [[ps, _dj(d[ps])] for ps in range(p)],
                         'old': [[ps, _dj(d2[ps])] for ps in range(p)]})
         if e and rng.random() < 0.4:
@@ -495,7 +559,8 @@ def generate(rng, tier):
     n_to = 0
     for k in range(n_mv):
         # about one table in eight may contain one case that runs into the alarm
-        cs = mv_cases(rng, mv_dims[0], mv_dims[1], timeouts if k % 8 == 0 else 0)
+        # every third table is first built in an older version, queried, and updated in place
+        cs = mv_cases(rng, mv_dims[0], mv_dims[1], timeouts if k % 8 == 0 else 0, with_prelude=(k % 3 == 1))
         cases += cs
     return cases
 
